@@ -1053,6 +1053,10 @@ pub struct IntruderPlan {
     pub gen_id: u8,
     pub mode: Mode,
     pub at: u64,
+    /// (round 17) the second instance does not run to completion: it is killed (or simply still
+    /// running when the first instance goes on) at this file-system mutation / print of its own.
+    /// What it has written so far is on the disk; its locks are gone with it.
+    pub kill_at: Option<u64>,
 }
 
 /// File identity on the simulated disk: a handle opened for writing refers to an *inode*, which
